@@ -202,6 +202,8 @@ def run(chk):
     chk.floor('R20.8', 7)
     legacy_sqrt_ranges(chk, repo)
     chk.floor('R20.9', 2)
+    from .common import precision_lint
+    precision_lint(chk, repo, 'R20.11', ['TidalPy/utilities/math/*.pyx'], floor_funcs=3)
     legacy_double_factorials(chk, repo)
     chk.floor('R20.1', 50); chk.floor('R20.4', 10); chk.floor('R20.5', 21)
 
